@@ -196,7 +196,7 @@ class Lower:
                 and self.scope.inline_depth < 4:
             fi = self.scope.program.lookup_method(self_cls, name)
             if fi is not None and fi.is_property:
-                body = [s for s in fi.node.body if not _is_doc(s)]
+                body = [s for s in fi.node.body if not _is_doc(s) and not isinstance(s, ast.Pass) and not _trivial_diag(s)]
                 if len(body) == 1 and isinstance(body[0], ast.Return):
                     sc = Scope(self.scope.program, fi.module, fi.cls, fi, self.scope.inline_depth + 1)
                     # evaluated in the *current* store (stores to self.<x> are visible through the property)
@@ -1526,6 +1526,17 @@ def _observational(callnode):
     head = d.split(".")[0]
     return d == "print" or d.startswith("logging.") or d.startswith("warnings.warn") or \
         (head in ("logger", "log", "_logger", "_log", "LOGGER") and d.split(".")[-1] in ("debug", "info", "warning", "error", "exception", "critical", "log"))
+
+
+def _trivial_diag(st):
+    """a logging / print statement all of whose arguments are constants, names or attribute chains (evaluates nothing that can fail)"""
+    if not (isinstance(st, ast.Expr) and isinstance(st.value, ast.Call) and _observational(st.value)):
+        return False
+    def simple(x):
+        while isinstance(x, ast.Attribute):
+            x = x.value
+        return isinstance(x, (ast.Constant, ast.Name))
+    return all(simple(a) for a in st.value.args) and all(k.arg is not None and simple(k.value) for k in st.value.keywords)
 
 
 def _as_load(node):
